@@ -1428,7 +1428,8 @@ func vC05HopRefreshOnly(tg vC05Toggles, st vC05Step, ob vC05StepObs) bool {
 	return len(wl) == 0 && extra > 0
 }
 
-// vC05AliasCaseLoop CLASSIFIES a difference as the known finding alias-target-case (never accepts one):
+// vC05AliasCaseLoop NAMES a difference as the class of the fixed finding alias-target-case (/repo a4faf69;
+// it never accepts one - the case stays a plain failure):
 // the byte path served a stored answer (NOERROR) that holds an alias record whose target is, letter for
 // letter, the name as THIS client spelled it, the decoded path answered SERVFAIL with empty sections for
 // the same packet (additionalAnswer's exact-spelling self-alias test), nothing else in the headers differs
@@ -1969,9 +1970,9 @@ func TestVerifC05Differential(t *testing.T) {
 			}
 			aliasCase := false
 			if goFail != "" && vC05AliasCaseLoop(ob) {
-				// known finding: the decoded path's self-alias test compares spellings exactly
+				// the class of the FIXED finding alias-target-case (/repo a4faf69): a plain failure, only named
 				aliasCase = true
-				goFail = "an alias onto its own owner in the client's letter case is a SERVFAIL on the decoded path only: " + goFail
+				goFail = "regression of alias-target-case (fixed in a4faf69): an alias onto its own owner in the client's letter case is a SERVFAIL on the decoded path only: " + goFail
 			}
 			if goFail != "" && vC05CaseOnly(ob.w, ob.m) && ob.wLog == ob.mLog {
 				// known finding: names inside RDATA take the letter case of the client's question
@@ -2005,7 +2006,7 @@ func TestVerifC05Differential(t *testing.T) {
 				kind = "diff/chase-hop-prefetch-regression"
 			}
 			if aliasCase {
-				kind = "diff/alias-target-case"
+				kind = "diff/alias-target-case-regression"
 			}
 			var hist []string
 			if goFail != "" {
@@ -2041,10 +2042,6 @@ func TestVerifC05Differential(t *testing.T) {
 			if fkey != "" {
 				// reported once through emitKnown; keep this step out of the plain comparison
 				rec["inconclusive"] = true
-			}
-			if aliasCase && !unsettled && os.Getenv("VERIF_C05_STRICT") == "" {
-				// VERIF_C05_STRICT=1 reports the class as a plain failure (fix candidate props/C05/fix2.patch)
-				rec["fkey"] = "alias-target-case"
 			}
 			emit(rec)
 		}
